@@ -1,3 +1,15 @@
 import Gossamer.Props.C23
 open Gossamer.C23
-#print axioms C23_startNext_setId
+#print axioms C23_refines
+#print axioms C23_refines_pending
+#print axioms C23_refines_next
+#print axioms C23_refused_import_counterexample
+#print axioms C23_setid_increments
+#print axioms C23_sets_contiguous
+#print axioms C23_setIdAt
+#print axioms C23_one_forced_per_fork
+#print axioms C23_reimport_counterexample
+#print axioms C23_abandoned_discarded
+#print axioms C23_spec_abandoned_discarded
+#print axioms C23_scheduled_applies_on_own_fork
+#print axioms C23_forced_applies_at_effective_block
